@@ -6,11 +6,21 @@ From DesVerif Require Import Gate.Model Gate.Map Gate.Sym Gate.Walk Gate.Mirror.
 Import ListNotations.
 Open Scope N_scope.
 
-Definition delay (ch : option N) : N := match ch with Some l => l | None => 0 end.
+(* idle-hop delay: transmission time of the 72-byte message + latency *)
+Definition delay (ch : option chan) : N := match ch with Some c => hop_delay c | None => 0 end.
 (* sum of the channel delays of the hops of a path *)
-Fixpoint total (chs : list (option N)) : N :=
+Fixpoint total (chs : list (option chan)) : N :=
   match chs with [] => 0 | ch :: r => delay ch + total r end.
 Definition path_delay (p : list conn) : N := total (map channel p).
+
+(* spelled out: sum over the hops of transmission time + latency *)
+Lemma path_delay_sum p :
+  path_delay p = fold_right N.add 0
+    (map (fun c => match channel c with Some (lat, br) => tx br + lat | None => 0 end) p).
+Proof.
+  unfold path_delay. induction p as [|c p IH]; [reflexivity|]. cbn [map total fold_right]. rewrite IH.
+  destruct (channel c) as [[lat br]|]; reflexivity.
+Qed.
 
 Lemma total_app a b : total (a ++ b) = total a + total b.
 Proof. induction a as [|x a IH]; cbn [total app]; [reflexivity|]. rewrite IH. lia. Qed.
